@@ -5,6 +5,7 @@ open AbtemVerif AbtemVerif.Proto AbtemVerif.Fft AbtemVerif.Gen.FftDispatch
 /- requests (strings travel as `s:<text>`):
      `defaults`                                         -> `ok <fft> <precision>`
      `dispatch <s:cfg> <hasFftw T/F> <hasMkl T/F>`       -> `ok numpy|fftw|mkl` | `err <kind>`
+     `route <s:cfg> <hasFftw T/F> <hasMkl T/F> <numpy array T/F>` -> `ok cached-fftw|numpy|fftw|mkl` | `err <kind>` (FresnelPropagator.propagate)
      `dtype <s:precision> <complex T/F>`                 -> `ok float32|float64|complex64|complex128` | `err <kind>`
      `fft <numpy|fftw|mkl> <s:name> <overwrite T/F>`     -> `ok <result aliases input T/F> <input modified T/F> <symbolic value>`
      `convolve <backend> <overwrite T/F> <inplaceOk T/F>` -> same
@@ -47,6 +48,14 @@ def handle : List String → String
       | .ok b => s!"ok {showBackend b}"
       | .error e => s!"err {e}"
     | _, _, _ => "bad-op"
+  | ["route", cfg, f, k, isnp] =>
+    match str? cfg, parseBool? f, parseBool? k, parseBool? isnp with
+    | some cfg, some f, some k, some isnp =>
+      match propagateRoute ⟨f, k⟩ cfg isnp with
+      | .ok .cachedFftw => "ok cached-fftw"
+      | .ok (.dispatched b) => s!"ok {showBackend b}"
+      | .error e => s!"err {e}"
+    | _, _, _, _ => "bad-op"
   | ["dtype", p, c] =>
     match str? p, parseBool? c with
     | some p, some c =>
